@@ -142,8 +142,21 @@ func (p *parser) expect(s string) error {
 	return nil
 }
 
+// isQuant: forall/exists start a quantifier only when followed by a bound variable
+// (so that Go identifiers named "exists" can be used in contracts).
+func (p *parser) isQuant() bool {
+	if !(p.isID("forall") || p.isID("exists")) {
+		return false
+	}
+	if p.i+2 >= len(p.t) || p.t[p.i+1].k != "id" {
+		return false
+	}
+	n := p.t[p.i+2]
+	return n.k == "id" || (n.k == "op" && (n.s == "::" || n.s == ","))
+}
+
 func (p *parser) top() (*Expr, error) {
-	if p.isID("forall") || p.isID("exists") {
+	if p.isQuant() {
 		q := p.next().s
 		var vars []BVar
 		for {
@@ -198,7 +211,7 @@ func (p *parser) impl() (*Expr, error) {
 	if p.isOp("==>") {
 		p.i++
 		var r *Expr
-		if p.isID("forall") || p.isID("exists") {
+		if p.isQuant() {
 			r, err = p.top()
 		} else {
 			r, err = p.impl()
@@ -251,7 +264,7 @@ func (p *parser) binl(sub func() (*Expr, error), ops ...string) (*Expr, error) {
 		}
 		p.i++
 		var r *Expr
-		if (hit == "&&" || hit == "||") && (p.isID("forall") || p.isID("exists")) {
+		if (hit == "&&" || hit == "||") && p.isQuant() {
 			r, err = p.top()
 		} else {
 			r, err = sub()
